@@ -154,6 +154,8 @@ def run(tier):
         items.append(f"({DYN[c['dyn']][1]}, {CA[c['ca']][1]}, {CA[c['ca_inner']][1]}, {fcoq}, {icoq}, {ocoq}, {dr}, {val}, {gql})")
         meta.append(dict(info, views=obs))
     extra_probe(R)
+    from harness import probes
+    probes.flatten_probe(R)
     T = ("(string -> string) * option (string -> string) * option (string -> string) * list nfield * list nfield * "
          "list (string * list string) * option (string * list string * list (list string)) * option (string * string) * "
          "option (list string)")
